@@ -127,7 +127,7 @@ class LinearModuleHelper(ModuleHelper):
         Args:
             a (torch.Tensor): tensor with shape batch_size * in_dim.
         """
-        a = a.view(-1, a.size(-1))
+        a = a.reshape(-1, a.size(-1))
         if self.has_bias():
             a = append_bias_ones(a)
         return get_cov(a)
